@@ -53,53 +53,126 @@ Section RenamedWf.
   Proof. apply (proj1 renamed_wf_all). Qed.
 End RenamedWf.
 
-Lemma In_lookup_nodup {A} t (v : A) l : NoDup (map fst l) -> In (t, v) l -> lookup t l = Some v.
-Proof.
-  induction l as [|[k x] l IH]; cbn [map fst In lookup]; [intros _ []|].
-  intros Hn [[= -> ->]|Hin]; [now rewrite N.eqb_refl|].
-  inversion Hn; subst. destruct (N.eqb k t) eqn:E.
-  - apply N.eqb_eq in E. subst. exfalso. apply H1. change t with (fst (t, v)). now apply in_map.
-  - now apply IH.
-Qed.
+(* ---- everything the copier writes is well-formed -------------------------------- *)
 
-Lemma redirected_nil_cons c cs : redirected (c :: cs) = [] -> redirected cs = [] /\ (forall s m, c <> CRedirect s m).
-Proof. destruct c; cbn [redirected]; try discriminate; intros H; split; try assumption; intros s' m' E; discriminate. Qed.
+Section CopyWf.
+  Variable src : source.
+  Hypothesis Hsrc : forall r o, In (r, Good o) src -> wf_obj o = true.
 
-Lemma no_redirects_fresh src fuel cs st : redirected cs = [] -> redirects_fresh src fuel cs st.
-Proof.
-  intros H cs1 s m cs2 ->. exfalso. induction cs1 as [|c cs1 IH]; cbn [app] in H.
-  - discriminate.
-  - apply redirected_nil_cons in H. destruct H as [H _]. auto.
-Qed.
+  Definition pwf (st : state) : Prop := forall t v, In (t, v) (puts st) -> wf_obj v = true.
+
+  Definition wf_spec (cp : obj -> state -> res (obj * state)) : Prop :=
+    forall o st o' st', cp o st = Ok (o', st') -> wf_obj o = true -> pwf st -> pwf st' /\ wf_obj o' = true.
+
+  Lemma wf_list cp l : wf_spec cp -> forall st l' st',
+    mapM cp l st = Ok (l', st') -> forallb wf_obj l = true -> pwf st -> pwf st' /\ forallb wf_obj l' = true.
+  Proof.
+    intros Hcp. induction l as [|x l IH]; intros st l' st'; cbn [mapM forallb].
+    - intros [= <- <-] _ Hp. split; [exact Hp|reflexivity].
+    - destruct (cp x st) as [[y s1]|c] eqn:E1; [|discriminate].
+      destruct (mapM cp l s1) as [[ys s2]|c] eqn:E2; [|discriminate].
+      intros [= <- <-]. rewrite andb_true_iff. intros [H1 H2] Hp.
+      destruct (Hcp _ _ _ _ E1 H1 Hp) as [Hp1 Hy]. destruct (IH _ _ _ E2 H2 Hp1) as [Hp2 Hys].
+      split; [exact Hp2|]. cbn [forallb]. now rewrite Hy, Hys.
+  Qed.
+
+  Lemma wf_entries cp d : wf_spec cp -> forall st d' st',
+    mapM (on_entry cp) d st = Ok (d', st') -> wfd d = true -> pwf st ->
+    pwf st' /\ wfd d' = true /\ map fst d' = map fst d.
+  Proof.
+    intros Hcp. unfold wfd. induction d as [|[k x] d IH]; intros st d' st'; cbn [mapM forallb].
+    - intros [= <- <-] _ Hp. split; [exact Hp|split; reflexivity].
+    - unfold on_entry at 1. cbn [fst snd]. destruct (cp x st) as [[y s1]|c] eqn:E1; [|discriminate].
+      destruct (mapM (on_entry cp) d s1) as [[ys s2]|c] eqn:E2; [|discriminate].
+      intros [= <- <-]. rewrite andb_true_iff. intros [H1 H2] Hp.
+      destruct (Hcp _ _ _ _ E1 H1 Hp) as [Hp1 Hy]. destruct (IH _ _ _ E2 H2 Hp1) as [Hp2 [Hys Hk]].
+      split; [exact Hp2|]. cbn [forallb map fst snd]. rewrite Hy, Hys, Hk. split; reflexivity.
+  Qed.
+
+  Lemma wf_fix_key cp k d acc st acc' st' : wf_spec cp ->
+    fix_key src cp k d (acc, st) = Ok (acc', st') -> wfd d = true -> wfd acc = true -> map fst acc = map fst d -> pwf st ->
+    pwf st' /\ wfd acc' = true /\ map fst acc' = map fst d.
+  Proof.
+    intros Hcp. unfold fix_key. cbn [fst snd]. destruct (dlookup k d) as [v|] eqn:El.
+    - destruct (inline src v) as [i|c] eqn:Ei; [|discriminate].
+      destruct (cp i st) as [[i' s1]|c] eqn:Ec; [|discriminate].
+      intros [= <- <-] Hd Ha Hk Hp.
+      assert (Hi : wf_obj i = true) by (eapply inline_wf; [exact Hsrc|exact Ei|eapply wfd_lookup; [exact Hd|exact El]]).
+      destruct (Hcp _ _ _ _ Ec Hi Hp) as [Hp1 Hi'].
+      split; [exact Hp1|split; [now apply wfd_dset|]].
+      rewrite dset_keys; [exact Hk|]. rewrite Hk. eapply dlookup_In; eassumption.
+    - intros [= <- <-] _ Ha Hk Hp. auto.
+  Qed.
+
+  Lemma copy_wf : forall fuel, wf_spec (copy_obj src fuel).
+  Proof.
+    induction fuel as [|f IH]; intros o st o' st' H Hw Hp; [discriminate|].
+    cbn [copy_obj] in H. destruct o as [| kd vv | l | d | r | d data].
+    - injection H as <- <-. auto.
+    - injection H as <- <-. auto.
+    - destruct (mapM (copy_obj src f) l st) as [[l' s1]|c] eqn:E; [|discriminate]. injection H as <- <-.
+      cbn [wf_obj] in *. eapply wf_list; eassumption.
+    - destruct (mapM (on_entry (copy_obj src f)) d st) as [[d' s1]|c] eqn:E; [|discriminate]. injection H as <- <-.
+      cbn [wf_obj] in *. apply andb_true_iff in Hw. destruct Hw as [Hk Hd].
+      destruct (wf_entries _ _ IH _ _ _ E Hd Hp) as [Hp1 [Hd' Hk']].
+      split; [exact Hp1|]. rewrite Hk', Hk. exact Hd'.
+    - destruct (lookup r (trans st)); [injection H as <- <-; auto|].
+      set (vp := match resolve_path src r with Ok vp => vp | Err _ => (ONull, []) end) in *.
+      assert (Hv : wf_obj (fst vp) = true).
+      { subst vp. destruct (resolve_path src r) as [[v path]|c] eqn:E; [|reflexivity]. cbn [fst].
+        pose proof (val_wf src Hsrc r) as Hvw. unfold val in Hvw. now rewrite E in Hvw. }
+      destruct vp as [v path]. cbn [fst] in Hv.
+      destruct (match path with e :: _ => lookup e (trans st) | [] => None end); [injection H as <- <-; auto|].
+      destruct (alloc_ok st); [|discriminate].
+      match type of H with context [copy_obj src f v ?s1] => destruct (copy_obj src f v s1) as [[v' st2]|c] eqn:Ec; [|discriminate];
+        assert (Hp1 : pwf s1) by exact Hp end.
+      destruct (has (next st) (puts st2)); [discriminate|]. injection H as <- <-.
+      destruct (IH _ _ _ _ Ec Hv Hp1) as [Hp2 Hv'].
+      split; [|reflexivity]. intros t0 v0 [[= <- <-]|Hin]; [exact Hv'|eapply Hp2; eassumption].
+    - destruct (mapM (on_entry (copy_obj src f)) d st) as [[d1 s1]|c] eqn:E1; [|discriminate].
+      destruct (fix_key src (copy_obj src f) K_Filter d (d1, s1)) as [[d2 s2]|c] eqn:E2; [|discriminate].
+      destruct (fix_key src (copy_obj src f) K_DecodeParms d (d2, s2)) as [[d3 s3]|c] eqn:E3; [|discriminate].
+      injection H as <- <-. cbn [wf_obj] in *. apply andb_true_iff in Hw. destruct Hw as [Hk Hd].
+      destruct (wf_entries _ _ IH _ _ _ E1 Hd Hp) as [Hp1 [Hd1 Hk1]].
+      destruct (wf_fix_key _ _ _ _ _ _ _ IH E2 Hd Hd1 Hk1 Hp1) as [Hp2 [Hd2 Hk2]].
+      destruct (wf_fix_key _ _ _ _ _ _ _ IH E3 Hd Hd2 Hk2 Hp2) as [Hp3 [Hd3 Hk3]].
+      split; [exact Hp3|]. rewrite Hk3, Hk. exact Hd3.
+  Qed.
+
+  Lemma run_wf fuel : forall cs st results st',
+    run_calls src fuel cs st = Ok (results, st') -> Forall call_wf cs -> pwf st -> pwf st'.
+  Proof.
+    induction cs as [|c cs IH]; intros st results st' H Hcs Hp.
+    - injection H as <- <-. exact Hp.
+    - destruct (run_calls_cons _ _ _ _ _ _ _ H) as [r [st1 [rs [Hc [Hrest ->]]]]].
+      inversion Hcs as [|c0 cs0 [Hw Hm] Hcs']; subst.
+      apply (IH _ _ _ Hrest Hcs'). destruct c as [r0 | o | s m]; cbn [run_call call_obj] in *.
+      + apply (copy_wf _ _ _ _ _ Hc Hw Hp).
+      + apply (copy_wf _ _ _ _ _ Hc Hw Hp).
+      + destruct (alloc_ok st); [|discriminate]. destruct (has (next st) (puts st)); [discriminate|].
+        injection Hc as <- <-. intros t0 v0 [[= <- <-]|Hin]; [exact Hm|eapply Hp; eassumption].
+  Qed.
+End CopyWf.
 
 Lemma copy_iso_paths : copy_iso_paths_stmt.
 Proof.
-  intros src fuel cs next0 results st H Hred Hsrc Hcs.
-  pose proof (no_redirects_fresh src fuel cs (init next0) Hred) as Hr.
+  intros src fuel cs next0 results st H Hr Hsrc Hcs.
   destruct (run_calls_spec src fuel cs [] _ _ _ H (inv_init src next0) Hr) as [Hi [_ Hc]].
-  rewrite Hred in Hi. cbn [app] in Hi. destruct Hi as [h1 h2 h3 h4 h5 h6 h7 h8].
-  assert (Hent : forall s t, lookup s (trans st) = Some t ->
-            exists v, lookup t (puts st) = Some v /\ renamed src (trans st) (val src (key src s)) v).
-  { intros s t Hl. destruct (h2 s t Hl (fun f => f)) as [[]|[[]|Hv]]. exact Hv. }
-  assert (Hli : local_iso src (puts st) (trans st)).
-  { constructor.
-    - intros s t Hin. apply h7 in Hin. split; [apply h1; [exact Hin|intros []]|].
-      destruct (Hent s t Hin) as [v [Hv Hrn]]. exists v. split; [exact Hrn|].
-      unfold tget. now rewrite Hv.
-    - intros s1 s2 t H1 H2. apply h7 in H1, H2. pose proof (h3 s1 s2 t H1 H2) as E.
-      now rewrite !kk_notin in E by (intros []).
-    - exact Hsrc.
-    - intros t o Hin. pose proof (In_lookup_nodup _ _ _ h5 Hin) as Hl.
-      destruct (h6 t o Hin) as [e [He _]]. destruct (Hent e t He) as [v [Hv Hrn]].
-      rewrite Hl in Hv. injection Hv as <-.
-      eapply renamed_wf; [exact Hsrc|exact Hrn|]. now apply val_wf. }
-  split; [exact Hli|].
-  clear - Hc Hcs Hred Hsrc. revert Hcs Hred. induction Hc as [|c res cs results Hcr _ IH]; intros Hcs Hred; [constructor|].
-  inversion Hcs; subst. apply redirected_nil_cons in Hred. destruct Hred as [Hred Hnr].
-  constructor; [|now apply IH].
-  assert (Hrn : renamed src (trans st) (call_obj c) res).
-  { destruct c; try exact Hcr. exfalso. eapply Hnr. reflexivity. }
-  split; [assumption|split].
-  - eapply renamed_wf; [exact Hsrc|exact Hrn|assumption].
-  - exists res. split; [exact Hrn|reflexivity].
+  rewrite app_nil_r in Hi. destruct Hi as [h1 h2 h3 h4 h5 h6 h7 h8].
+  split.
+  - constructor.
+    + intros s t Hin Hn. apply h7 in Hin. split; [now apply h1|].
+      destruct (h2 s t Hin Hn) as [Hx|[[]|[v [Hv Hrn]]]]; [now left|].
+      right. exists v. split; [exact Hrn|]. unfold tget. now rewrite Hv.
+    + intros s1 s2 t H1 H2 N1 N2. apply h7 in H1, H2. pose proof (h3 s1 s2 t H1 H2) as E.
+      now rewrite !kk_notin in E by assumption.
+    + exact Hsrc.
+    + intros t o Hin. eapply (run_wf src Hsrc fuel cs _ _ _ H Hcs); [|exact Hin]. intros t0 v0 [].
+  - clear - Hc Hcs Hsrc. revert Hcs. induction Hc as [|c res cs results Hcr _ IH]; intros Hcs; [constructor|].
+    inversion Hcs as [|c0 cs0 [Hw Hm] Hcs']; subst. constructor; [|now apply IH].
+    destruct c as [r0 | o | s m]; cbn [call_root_ok call_result_ok call_obj] in *; [| |exact I].
+    + split; [exact Hw|split; [|exists res; split; [exact Hcr|reflexivity]]].
+      eapply renamed_wf; [exact Hsrc|exact Hcr|exact Hw].
+    + split; [exact Hw|split; [|exists res; split; [exact Hcr|reflexivity]]].
+      eapply renamed_wf; [exact Hsrc|exact Hcr|exact Hw].
 Qed.
